@@ -3,6 +3,7 @@
   All theorems hold in any semigroup (`f` associative), for lists of any length.
 -/
 import FunsorVerif.Model.C10
+import Mathlib.Tactic.Ring
 namespace FV.Props.C10
 open FV.C10
 
@@ -267,5 +268,86 @@ theorem mixed_eq_fold (h : Assoc f) (k : Nat) (hk : k > 0) :
           have h2 := fold1_append f h [ie] _ ie y rfl hr
           rw [h1]; simpa using h2
     · exact base (fuel + 1) l (by omega) hne hcond
+
+end FV.Props.C10
+
+namespace FV.Props.C10
+open FV.C10
+
+variable {α : Type} (f : α → α → α)
+
+/-- Iterated squaring: the value the time-independent branch computes after `k` rounds. -/
+def sqIter (x : α) : Nat → α
+  | 0 => x
+  | k + 1 => sqIter (f x x) k
+
+/-- Time-independent transition, duration a power of two: the loop returns the `k`-fold squaring. -/
+theorem scanConst_pow2 (x : α) : ∀ (k fuel : Nat), fuel > k →
+    scanConst f x fuel (2 ^ k) = some (sqIter f x k) := by
+  intro k
+  induction k generalizing x with
+  | zero => intro fuel hf; cases fuel with
+    | zero => omega
+    | succ n => simp [scanConst, sqIter]
+  | succ k ih =>
+    intro fuel hf
+    cases fuel with
+    | zero => omega
+    | succ n =>
+      have h2 : (2:Nat) ^ (k + 1) > 1 := by
+        have : (2:Nat) ^ k ≥ 1 := Nat.one_le_two_pow
+        rw [Nat.pow_succ]; omega
+      have hmod : (2:Nat) ^ (k + 1) % 2 = 0 := by rw [Nat.pow_succ]; omega
+      have hdiv : (2:Nat) ^ (k + 1) / 2 = 2 ^ k := by rw [Nat.pow_succ]; omega
+      simp only [scanConst]
+      rw [if_neg (by omega), if_neg (by omega), hdiv]
+      exact ih (f x x) n (by omega)
+
+/-- Squaring `k` times is the `2^k`-fold product (so the power-of-two branch equals the fold of
+    `2^k` equal factors). -/
+theorem sqIter_eq_fold (h : Assoc f) (x : α) : ∀ k, fold1 f (List.replicate (2 ^ k) x) = some (sqIter f x k) := by
+  intro k
+  induction k generalizing x with
+  | zero => simp [fold1, sqIter]
+  | succ k ih =>
+    have hsplit : List.replicate (2 ^ (k + 1)) x = List.replicate (2 ^ k) x ++ List.replicate (2 ^ k) x := by
+      rw [List.replicate_append_replicate]; congr 1; rw [Nat.pow_succ]; omega
+    -- halving a list of equal factors gives a list of their squares
+    have hhalve : ∀ n, halve f (List.replicate (2 * n) x) = List.replicate n (f x x) := by
+      intro n
+      induction n with
+      | zero => simp [halve]
+      | succ n ihn =>
+        have : 2 * (n + 1) = (2 * n) + 1 + 1 := by omega
+        rw [this, List.replicate_succ, List.replicate_succ, halve, ihn, List.replicate_succ]
+    have h2 : (2:Nat) ^ (k + 1) = 2 * 2 ^ k := by rw [Nat.pow_succ]; omega
+    rw [← fold1_halve f h, h2, hhalve, ih (f x x)]
+    rfl
+
+/-- An odd duration > 1 makes the time-independent branch decline (Cat refuses the odd tail). -/
+theorem scanConst_odd_declines (x : α) (fuel d : Nat) (hd : d > 1) (hodd : d % 2 = 1) :
+    scanConst f x (fuel + 1) d = none := by
+  simp only [scanConst]
+  rw [if_neg (by omega), if_pos hodd]
+
+/-- Non-vacuity: a concrete non-commutative semigroup (2×2 integer matrices as 4-tuples) where the
+    three algorithms agree with the fold on a duration-5 chain. -/
+def mm (a b : Int × Int × Int × Int) : Int × Int × Int × Int :=
+  let (a1, a2, a3, a4) := a
+  let (b1, b2, b3, b4) := b
+  (a1 * b1 + a2 * b3, a1 * b2 + a2 * b4, a3 * b1 + a4 * b3, a3 * b2 + a4 * b4)
+
+theorem mm_assoc : Assoc mm := by
+  intro ⟨a1, a2, a3, a4⟩ ⟨b1, b2, b3, b4⟩ ⟨c1, c2, c3, c4⟩
+  simp only [mm, Prod.mk.injEq]
+  refine ⟨?_, ?_, ?_, ?_⟩ <;> ring
+
+example : scan mm [(1,2,3,4), (0,1,1,0), (2,0,0,2), (1,1,0,1), (1,0,2,1)]
+    = fold1 mm [(1,2,3,4), (0,1,1,0), (2,0,0,2), (1,1,0,1), (1,0,2,1)] := scan_eq_fold mm mm_assoc _
+
+
+example : scanIdx mm 6 [(1,2,3,4), (0,1,1,0), (2,0,0,2), (1,1,0,1), (1,0,2,1)] = some (16, 6, 36, 14) := by decide
+example : fold1 mm [(1,2,3,4), (0,1,1,0), (2,0,0,2), (1,1,0,1), (1,0,2,1)] = some (16, 6, 36, 14) := by decide
+example : mm (mm (1,2,3,4) (0,1,1,0)) (2,0,0,2) ≠ mm (mm (0,1,1,0) (1,2,3,4)) (2,0,0,2) := by decide
 
 end FV.Props.C10
